@@ -242,9 +242,11 @@ func runC04(c *Ctx) {
 			absint.SetGhost(st, gStores, absint.Const(1))
 		}
 		a.OnExternal = func(f2 *ssa.Function, site ssa.Instruction, nm string, st *absint.State, args []absint.Term) {
-			if f2 != un || nm != "bytes.Clone" {
+			// the copy that becomes the frame: in the parser itself or in a helper it calls with the window
+			if nm != "bytes.Clone" {
 				return
 			}
+			_ = f2
 			canon(st)
 			s, _ := args[0].(*absint.Slice)
 			h := hist(st)
@@ -292,7 +294,45 @@ func runC04(c *Ctx) {
 				cond, taken = u.X, !taken
 			}
 			x, ok := cond.(*ssa.BinOp)
-			if !ok || (x.Op != token.EQL && x.Op != token.NEQ) {
+			if !ok {
+				return
+			}
+			// a library search for the delimiter in a suffix of the pending buffer: bytes.IndexByte(pending[k:], 0x7e)
+			// compared with a constant. From the branch state: found at r -> [k, k+r) is free of delimiters and byte
+			// k+r is one; not found -> the whole suffix is free of delimiters.
+			for _, opd := range []ssa.Value{x.X, x.Y} {
+				call, isC := opd.(*ssa.Call)
+				if !isC || call.Call.StaticCallee() == nil || len(call.Call.Args) != 2 {
+					continue
+				}
+				if n := call.Call.StaticCallee().String(); n != "bytes.IndexByte" && n != "bytes.IndexRune" {
+					continue
+				}
+				if kk, isK := constInt(call.Call.Args[1]); !isK || kk != 0x7e {
+					continue
+				}
+				xs, isS := a.Val(st, call.Call.Args[0]).(*absint.Slice)
+				h := hist(st)
+				rv, isI := a.Val(st, call).(absint.Int)
+				if !isS || !isI || h == nil || xs.Base != h.Base || !st.Entails(eqC(xs.Off.Add(xs.Len), h.Off.Add(h.Len))) {
+					continue
+				}
+				k0 := xs.Off.Sub(h.Off) // start of the searched suffix inside the pending buffer
+				cur := gh(st, gC)
+				if !st.Entails(leC(k0, cur)) || !st.Entails(absint.Con{L: k0, Rel: absint.GE}) {
+					continue // the part before the suffix has not been scanned
+				}
+				switch {
+				case st.Entails(absint.Con{L: rv.L, Rel: absint.GE}): // found
+					pos := k0.Add(rv.L)
+					absint.SetGhost(st, gC, pos)
+					st.AssumeEQ(a.ByteAt(st, h, pos).AddC(-0x7e))
+				case st.Entails(leC(rv.L, absint.Const(-1))): // not found
+					absint.SetGhost(st, gC, h.Len)
+				}
+				return
+			}
+			if x.Op != token.EQL && x.Op != token.NEQ {
 				return
 			}
 			bv, kv := x.X, x.Y
